@@ -60,6 +60,66 @@ class NeedsToCsc:
         return Csc(self._rows)
 
 
+class CsrWithToCsc:
+    """CSR-like container: indices / indptr in ROW layout (as scipy's csr_matrix) plus tocsc()."""
+
+    def __init__(self, rows):
+        n = len(rows)
+        self._rows = rows
+        self.shape = (n, n)
+        ind, ptr = [], [0]
+        for r in range(n):
+            for c in range(n):
+                if rows[r][c]:
+                    ind.append(c)
+            ptr.append(len(ind))
+        self.indices = ind
+        self.indptr = ptr
+
+    def tocsc(self):
+        return Csc(self._rows)
+
+
+class CooWithToCsc:
+    def __init__(self, rows):
+        n = len(rows)
+        self._rows = rows
+        self.shape = (n, n)
+        self.row = [r for r in range(n) for c in range(n) if rows[r][c]]
+        self.col = [c for r in range(n) for c in range(n) if rows[r][c]]
+
+    def tocsc(self):
+        return Csc(self._rows)
+
+
+try:
+    import scipy.sparse as _sp       # optional: real containers when scipy is importable
+except Exception:                    # noqa: BLE001
+    _sp = None
+
+
+def sparsity_container(rows, form):
+    """(object passed as jac_sparsity, name of the container actually used)."""
+    if form == "csc":
+        return Csc(rows), form
+    if form == "csc_np":
+        return Csc(rows, as_np=True), form
+    if form == "tocsc":
+        return NeedsToCsc(rows), form
+    if form == "coo_tocsc":
+        return CooWithToCsc(rows), form
+    if form == "csr_tocsc":
+        return CsrWithToCsc(rows), form
+    if form.startswith("sp_"):
+        if _sp is None:    # scipy missing: the duck-typed container with the same protocol
+            alt = {"sp_csc": "csc", "sp_csr": "csr_tocsc", "sp_coo": "coo_tocsc", "sp_lil": "tocsc"}[form]
+            return sparsity_container(rows, alt)
+        A = np.array(rows, dtype=float)
+        ctor = {"sp_csc": _sp.csc_matrix, "sp_csr": _sp.csr_matrix, "sp_coo": _sp.coo_matrix, "sp_lil": _sp.lil_matrix}[form]
+        return ctor(A), form
+    raise ValueError(form)
+
+
 class Recorder:
     def __init__(self):
         self.calls = 0
@@ -373,10 +433,9 @@ def run_case(c):
         kw["jac"] = deliver_matrix(J, c["jac_form"])
     if c["has_sparsity"]:
         rows = c["pat"]["rows"]
-        form = c["pat"]["form"]
-        kw["jac_sparsity"] = Csc(rows) if form == "csc" else (NeedsToCsc(rows) if form == "tocsc" else Csc(rows, as_np=True))
+        kw["jac_sparsity"], sp_used = sparsity_container(rows, c["pat"]["form"])
 
-    out = {"id": c["id"], "side": "py", "n": c["n"]}
+    out = {"id": c["id"], "side": "py", "n": c["n"], "sparsity_container": sp_used if c["has_sparsity"] else ""}
     try:
         tsf = c.get("tspan_form", "tuple")
         tspan = (t0, tf) if tsf == "tuple" else ([t0, tf] if tsf == "list" else np.array([t0, tf]))
